@@ -30,7 +30,8 @@ func lifeRuns(tier string) []base {
 	mainO := AlphaOpts{RespKinds: []string{"ok", "bad", "noout"}, CtxOps: []string{"pause", "start", "kill"},
 		Updates: []CtxUpdate{updTotalUp, updCap1}, Withdraw: []string{"O1:", "O1:P1", "O2:", "O2:P2"}}
 	gapO := AlphaOpts{RespKinds: []string{"ok"}, CtxOps: []string{"pause", "start", "kill"},
-		Updates: []CtxUpdate{updFreq3Tot2, updTotalInf, updTimeout2, updTimeout3}}
+		Updates: []CtxUpdate{updFreq3Tot2, updTotalInf, updTimeout2, updTimeout3},
+		BindOps: []Action{actDisable("a", "P2", "O2"), actEnable("a", "P2", "O2", 0)}}
 	ctlO := AlphaOpts{RespKinds: []string{"ok"}, CtxOps: []string{"pause", "start", "kill"},
 		Updates: []CtxUpdate{updTotalUp, updTotalInf, updTimeout2, updTimeout3, updFreq2, updFreq1Tot2}}
 	modO := AlphaOpts{RespKinds: []string{"ok", "bad", "noout"}, ModOps: []string{"mpause", "mstart", "mkill"},
@@ -45,7 +46,7 @@ func lifeRuns(tier string) []base {
 			return withFunds(scLife(paramSet("0.1", "0.001"), []Template{tOne, tRep2, tInf}, ctlO, d, b, m), 40, 5)
 		}},
 		{"life-caplow-flipped", func() *Scenario {
-			return flip(scLife(defaultParams(), []Template{tCapLow, tLong}, AlphaOpts{RespKinds: []string{"ok", "bad"}, CtxOps: []string{"pause", "start"},
+			return flip(scLife(defaultParams(), []Template{tCapLow, tLong, tPoorOne}, AlphaOpts{RespKinds: []string{"ok", "bad"}, CtxOps: []string{"pause", "start"},
 				Updates: []CtxUpdate{updProvP2}, Withdraw: []string{"O2:"}}, d, b, m))
 		}},
 		{"price-subunit+zero", func() *Scenario { return scPrice(paramSet("0.1", "0.001"), "p1v", "p0", []Template{tOne, tRep2}, mainO, d, b, m) }},
@@ -98,13 +99,13 @@ func init() {
 		d, b, m := bump(tier, 7, 4, 3)
 		o := []Oracle{oracleC03{}}
 		runs := []RunSpec{
-			{Name: "bind-ops+slash", Sc: scBind(defaultParams(), bindOpsFull(), []Template{tSlash}, []string{"bad"}, d, b, m), Oracles: o},
-			{Name: "bind-ops+two-failures", Sc: scBind(paramSet("0.1", "0.001"), bindOpsSmall(), []Template{tSlash2}, []string{"bad", "ok"}, d+1, b+1, 2), Oracles: o},
+			{Name: "bind-ops+slash", Sc: scBind(defaultParams(), bindOpsFull(), []Template{tSlash}, []string{"bad"}, d, b, m), Oracles: o, Mon: MonFlags{Dis: true}},
+			{Name: "bind-ops+two-failures", Sc: scBind(paramSet("0.1", "0.001"), bindOpsSmall(), []Template{tSlash2}, []string{"bad", "ok"}, d+1, b+1, 2), Oracles: o, Mon: MonFlags{Dis: true}},
 		}
-		runs = append(runs, runsOf(lifeRuns(tier), o, MonFlags{}, "life-main")...)
+		runs = append(runs, runsOf(lifeRuns(tier), o, MonFlags{Dis: true}, "life-main", "life-caplow-flipped")...)
 		if tier == "thorough" {
 			for _, sl := range []string{"0", "1"} {
-				runs = append(runs, RunSpec{Name: "bind-ops+slash" + sl, Sc: scBind(paramSet("0.5", sl), bindOpsFull(), []Template{tSlash}, []string{"bad"}, d, b, m), Oracles: o})
+				runs = append(runs, RunSpec{Name: "bind-ops+slash" + sl, Sc: scBind(paramSet("0.5", sl), bindOpsFull(), []Template{tSlash}, []string{"bad"}, d, b, m), Oracles: o, Mon: MonFlags{Dis: true}})
 			}
 		}
 		return runs
@@ -117,7 +118,7 @@ func init() {
 			{Name: "bind-ops+two-failures", Sc: scBind(paramSet("0.1", "0.001"), bindOpsSmall(), []Template{tSlash2}, []string{"bad", "ok"}, d+1, b+1, 2), Oracles: o},
 			{Name: "life-super", Sc: scLife(defaultParams(), []Template{tOne, tSuper}, AlphaOpts{RespKinds: []string{"ok", "bad"}, CtxOps: []string{"kill"}}, d+1, b+1, 2), Oracles: o},
 		}
-		runs = append(runs, runsOf(lifeRuns(tier), o, MonFlags{}, "life-main", "life-gap", "mod-main", "msvc")...)
+		runs = append(runs, runsOf(lifeRuns(tier), o, MonFlags{})...)
 		if tier == "thorough" {
 			for _, sl := range []string{"0", "0.001", "1"} {
 				runs = append(runs, RunSpec{Name: "bind-ops+slash" + sl, Sc: scBind(paramSet("0.5", sl), bindOpsFull(), []Template{tSlash}, []string{"bad"}, d, b, m), Oracles: o})
@@ -129,25 +130,26 @@ func init() {
 		d, b, m := bump(tier, 8, 5, 2)
 		o := []Oracle{oracleC06{}}
 		eo := AlphaOpts{RespKinds: []string{"ok", "bad"}, CtxOps: []string{"pause", "start"}, Updates: []CtxUpdate{updCap1, updProvP2},
-			BindOps: []Action{actDisable("a", "P1", "O1"), actEnable("a", "P1", "O1", 0), actUpdate("a", "P2", "O2", 0, "", 2), actUpdate("a", "P1", "O1", 30, "p20", 0)}}
-		modO := AlphaOpts{RespKinds: []string{"ok", "bad"}, ModOps: []string{"mpause", "mstart"}, ModUpdates: []CtxUpdate{{Name: "thr2", Threshold: 2}}}
+			BindOps: []Action{actDisable("a", "P1", "O1"), actEnable("a", "P1", "O1", 0), actUpdate("a", "P2", "O2", 0, "", 2), actUpdate("a", "P1", "O1", 30, "p20", 0), actUpdate("a", "P2", "O2", 0, "", 1<<63), actUpdate("a", "P2", "O2", 0, "", 1<<64-1)}}
+		modO := AlphaOpts{RespKinds: []string{"ok", "bad"}, ModOps: []string{"mpause", "mstart"}, ModUpdates: []CtxUpdate{{Name: "thr2", Threshold: 2}, {Name: "thr1", Threshold: 1}}}
 		runs := []RunSpec{
 			{Name: "life-eligibility", Sc: scLife(defaultParams(), []Template{tOne, tRep2, tPoor}, eo, d, b, m), Oracles: o},
 			{Name: "life-eligibility-flipped-ids", Sc: flip(scLife(defaultParams(), []Template{tRep2, tLong}, eo, d, b, m)), Oracles: o},
 			{Name: "mod-thresholds", Sc: scMod(defaultParams(), []Template{tMod2, tModCap, tModPoor}, modO, d-1, b, m), Oracles: o},
+			{Name: "mod-thresholds-raise", Sc: scMod(paramSet("0.1", "0.001"), []Template{tMod1}, AlphaOpts{RespKinds: []string{"ok"}, ModUpdates: []CtxUpdate{{Name: "thr2", Threshold: 2}}, BindOps: []Action{actDisable("a", "P2", "O2"), actEnable("a", "P2", "O2", 0)}}, d, b, m), Oracles: o},
 		}
-		runs = append(runs, runsOf(lifeRuns(tier), o, MonFlags{}, "life-main", "price-subunit+zero", "life-caplow-flipped", "msvc")...)
+		runs = append(runs, runsOf(lifeRuns(tier), o, MonFlags{})...)
 		return runs
 	}})
 	register(&CheckSpec{Prop: "C07", Runs: func(tier string) []RunSpec {
 		d, b, m := bump(tier, 8, 5, 2)
 		o := []Oracle{oracleC07{}}
-		po := AlphaOpts{RespKinds: []string{"ok", "bad"}, BindOps: []Action{actUpdate("a", "P1", "O1", 0, "p1t", 0), actUpdate("a", "P2", "O2", 0, "p3vv", 0)}}
+		po := AlphaOpts{RespKinds: []string{"ok", "bad"}, BindOps: []Action{actUpdate("a", "P1", "O1", 0, "p1t", 0), actUpdate("a", "P2", "O2", 0, "p3vv", 0), actUpdate("a", "P1", "O1", 0, "p4tr", 0)}}
 		runs := []RunSpec{
 			{Name: "price-volume", Sc: withFunds(scPrice(paramSet("0.1", "0.001"), "p2v", "p3vv", []Template{tRep2, tLong, tSuper}, po, d, b, m), 30, 5), Oracles: o, Mon: MonFlags{Vol: true}},
 			{Name: "price-time+subunit", Sc: withFunds(scPrice(paramSet("0.1", "0.001"), "p4t", "p1v", []Template{tRep2, tInf}, po, d, b, m), 30, 5), Oracles: o, Mon: MonFlags{Vol: true}},
 		}
-		runs = append(runs, runsOf(lifeRuns(tier), o, MonFlags{Vol: true}, "life-main", "price-subunit+zero")...)
+		runs = append(runs, runsOf(lifeRuns(tier), o, MonFlags{Vol: true})...)
 		return runs
 	}, Pure: priceGrid})
 	register(&CheckSpec{Prop: "C08", Runs: func(tier string) []RunSpec {
@@ -158,7 +160,7 @@ func init() {
 			{Name: "life-timeouts-1-2", Sc: withFunds(scLife(paramSet("0.1", "0.001"), []Template{tOne, tLong}, wo, d, b, m), 30, 5), Oracles: o, Mon: MonFlags{Req: true}},
 			{Name: "life-timeout-3", Sc: withFunds(scLife(paramSet("0.1", "0.001"), []Template{{Name: "t3", Consumer: "C1", Service: "a", Providers: []string{"P1", "P2"}, Cap: 5, Timeout: 3}}, wo, d, b, m+1), 30, 5), Oracles: o, Mon: MonFlags{Req: true}},
 		}
-		runs = append(runs, runsOf(lifeRuns(tier), o, MonFlags{Req: true}, "life-main", "life-gap", "mod-main", "msvc")...)
+		runs = append(runs, runsOf(lifeRuns(tier), o, MonFlags{Req: true})...)
 		return runs
 	}})
 	register(&CheckSpec{Prop: "C09", Runs: func(tier string) []RunSpec {
@@ -174,7 +176,7 @@ func init() {
 			{Name: "cadence-rep1+long+f3", Sc: withFunds(scLife(paramSet("0.1", "0.001"), []Template{tRep1, tLong, tF3}, AlphaOpts{RespKinds: []string{"ok"}, CtxOps: []string{"pause", "start"}, Updates: []CtxUpdate{updTotalUp}}, d, b, m), 40, 5), Oracles: o, Mon: mf},
 			{Name: "frequency-boundaries", Sc: withFunds(scLife(paramSet("0.1", "0.001"), []Template{tHuge, tMax, tBig}, AlphaOpts{CtxOps: []string{"pause", "start"}}, 5, 4, 2), 40, 5), Oracles: o, Mon: mf},
 		}
-		runs = append(runs, runsOf(lifeRuns(tier), o, mf, "life-main", "life-gap", "life-control", "mod-main", "msvc")...)
+		runs = append(runs, runsOf(lifeRuns(tier), o, mf)...)
 		return runs
 	}})
 	register(&CheckSpec{Prop: "C11", Runs: func(tier string) []RunSpec {
@@ -185,7 +187,7 @@ func init() {
 			{Name: "life-events", Sc: withFunds(scLife(paramSet("0.1", "0.001"), []Template{tRep2, tInf, tPoor}, ctlO, d, b, m), 40, 1), Oracles: o},
 			{Name: "frequency-boundaries", Sc: withFunds(scLife(paramSet("0.1", "0.001"), []Template{tHuge, tMax, tBig}, AlphaOpts{CtxOps: []string{"pause", "start"}}, 5, 4, 2), 40, 5), Oracles: o},
 		}
-		runs = append(runs, runsOf(lifeRuns(tier), o, MonFlags{}, "life-main", "life-gap", "life-control", "mod-main", "msvc")...)
+		runs = append(runs, runsOf(lifeRuns(tier), o, MonFlags{})...)
 		return runs
 	}})
 	register(&CheckSpec{Prop: "C12", Runs: func(tier string) []RunSpec {
@@ -196,14 +198,14 @@ func init() {
 			{Name: "mod-callbacks", Sc: scMod(defaultParams(), []Template{tMod1, tMod2, tModPoor}, modO, d, b, m), Oracles: o, Mon: MonFlags{CB: true}},
 			{Name: "mod-callbacks-oneshot+cap", Sc: scMod(defaultParams(), []Template{tModOne, tModCap}, modO, d, b, m+1), Oracles: o, Mon: MonFlags{CB: true}},
 		}
-		runs = append(runs, runsOf(lifeRuns(tier), o, MonFlags{CB: true}, "life-main", "life-gap", "mod-main", "msvc")...)
+		runs = append(runs, runsOf(lifeRuns(tier), o, MonFlags{CB: true})...)
 		return runs
 	}})
 	register(&CheckSpec{Prop: "C13", Runs: func(tier string) []RunSpec {
 		d, b, m := bump(tier, 7, 3, 4)
 		o := []Oracle{oracleC13{}}
 		runs := []RunSpec{{Name: "fees", Sc: scFees(paramSet("0.1", "0.001"), true, d, b, m), Oracles: o}}
-		runs = append(runs, runsOf(lifeRuns(tier), o, MonFlags{}, "life-main")...)
+		runs = append(runs, runsOf(lifeRuns(tier), o, MonFlags{}, "life-main", "life-control", "mod-main")...)
 		return runs
 	}})
 	register(&CheckSpec{Prop: "C14", Runs: func(tier string) []RunSpec {
@@ -213,7 +215,8 @@ func init() {
 			{Name: "bind-ops+slash", Sc: scBind(defaultParams(), bindOpsFull(), []Template{tSlash}, []string{"bad"}, d, b, m), Oracles: o},
 			{Name: "bind-ops+two-failures", Sc: scBind(paramSet("0.1", "0.25"), bindOpsSmall(), []Template{tSlash2}, []string{"bad", "ok"}, d+1, b+1, 2), Oracles: o},
 		}
-		runs = append(runs, runsOf(lifeRuns(tier), o, MonFlags{}, "life-main")...)
+		// (the msvc run is left out: its module-service binding is installed by the host chain with a zero deposit, not by a message)
+		runs = append(runs, runsOf(lifeRuns(tier), o, MonFlags{}, "life-main", "life-caplow-flipped", "price-subunit+zero", "mod-main")...)
 		if tier == "thorough" {
 			p := defaultParams()
 			p.MinDeposit, p.Multiple, p.Name = 3, 5, "min3-mult5"
@@ -240,7 +243,7 @@ func init() {
 			{Name: "fees-auth", Sc: scFees(paramSet("0.1", "0.001"), true, 6+d, 3, 3), Oracles: o},
 			{Name: "msvc-reserved", Sc: scMsvc(defaultParams(), 5+d, 3, 3), Oracles: o},
 		}
-		runs = append(runs, runsOf(lifeRuns(tier), o, MonFlags{}, "life-main", "life-gap", "life-control")...)
+		runs = append(runs, runsOf(lifeRuns(tier), o, MonFlags{})...)
 		return runs
 	}})
 	register(&CheckSpec{Prop: "C15", Runs: func(tier string) []RunSpec {
@@ -280,7 +283,7 @@ func init() {
 			{Name: "life-ids+positions", Sc: scLife(defaultParams(), []Template{tOne, tRep2, tPoor}, eo, d, b, m), Oracles: o},
 			{Name: "life-ids-flipped", Sc: flip(scLife(defaultParams(), []Template{tCapLow, tLong}, eo, d, b, m)), Oracles: o},
 		}
-		runs = append(runs, runsOf(lifeRuns(tier), o, MonFlags{}, "life-main", "mod-main")...)
+		runs = append(runs, runsOf(lifeRuns(tier), o, MonFlags{})...)
 		return runs
 	}, Pure: keysAndIDs})
 	register(&CheckSpec{Prop: "C19", Runs: func(tier string) []RunSpec {
@@ -305,7 +308,7 @@ func init() {
 		}
 		o := []Oracle{oracleC20{}}
 		var runs []RunSpec
-		for _, r := range runsOf(lifeRuns(tier), o, MonFlags{}, "life-main", "life-gap", "mod-main", "msvc") {
+		for _, r := range runsOf(lifeRuns(tier), o, MonFlags{}) {
 			r.Sc.Depth--
 			r.DetCheck = true
 			runs = append(runs, r)
